@@ -53,7 +53,23 @@ class Model:
     def __init__(self):
         self.path = os.path.join(COQ, "extract", "driver")
 
-    def ask(self, lines, timeout=600):
+    def ask(self, lines, timeout=1800, workers=12):
+        """Answers in order; large batches are sharded over parallel driver processes."""
+        if not lines:
+            return []
+        if len(lines) < 64:
+            return self._ask1(lines, timeout)
+        from concurrent.futures import ThreadPoolExecutor
+        # interleave so that every shard gets a similar mix of cheap and expensive commands
+        shards = [lines[i::workers] for i in range(workers)]
+        with ThreadPoolExecutor(max_workers=workers) as ex:
+            outs = list(ex.map(lambda sh: self._ask1(sh, timeout), shards))
+        res = [None] * len(lines)
+        for i, o in enumerate(outs):
+            res[i::workers] = o
+        return res
+
+    def _ask1(self, lines, timeout):
         if not lines:
             return []
         inp = "\n".join(lines) + "\n"
